@@ -287,6 +287,16 @@ func (g *G) scWith() []Node {
 		body = append(body, &With{Obj: S("str"), Body: Log(S("with-prim"), Id("length"))})
 	}
 	if g.R.Bool() {
+		// an exception leaving a with body restores the lexical environment (12.10)
+		wo := g.fresh("wo")
+		body = append(body,
+			V(wo, ObjL(P(x, S("with-object")), P("q", S("with-q")))),
+			TryC(Blk(&With{Obj: Id(wo), Body: Blk(Log(S("in-with"), Id(x)), Thr(S("boom")))}), "e", Blk(Log(S("with-threw"), Id("e"), Id(x), Id("q"))), nil),
+			ES(Asg(Id("q"), S("assigned"))),
+			Log(S("after-with-throw"), Id(x), Id("q"), Dot(Id(wo), "q"), CallE(FnE("", nil, Ret(Id(x))))),
+		)
+	}
+	if g.R.Bool() {
 		c := g.fresh("c")
 		body = append(body, V(c, nil), &With{Obj: ObjL(P("w", N(7))), Body: ES(Asg(Id(c), FnE("", nil, Ret(Id("w")))))}, Log(S("with-closure"), CallN(c)))
 	}
